@@ -401,6 +401,11 @@ func (w *World) Key(ordered bool) [16]byte {
 			}
 		}
 	}
+	for i, h := range w.HoldFrom {
+		if h {
+			b = append(b, 0xe0, byte(i))
+		}
+	}
 	b = append(b, 0xfa)
 	for _, m := range w.Mons {
 		b = m.History(b)
